@@ -204,10 +204,15 @@ PROPS['C15'] = dict(
               'ghost inbound stream in arbitrary chunk sizes (k-witness content)',
     text='Chunking conjunct (proved-modular, unbounded in the number of chunks): for every request of 1..8192 bytes and EVERY sequence of chunk sizes the socket chooses, sockRead either throws '
          'PeerResetConnection or returns exactly the requested count, has consumed exactly that many bytes of the stream, and the buffer holds exactly the next stream bytes in order (each byte '
-         'lands at its own offset: the obligation a missing `+ rddone` breaks); every receive call is given room for the bytes it may write. NOT decided: FIXReader::read (preamble checks, '
-         'BodyLength bounds, the tag[32]/val[2048] buffers fed by extract_element, message assembly) and FIXReader::execute (thread/queue hand-off) -- read() is not under contract yet; '
+         'lands at its own offset: the obligation a missing `+ rddone` breaks); every receive call is given room for the bytes it may write. '
+         'Framing (FIXReader::read from the clang AST, against sockRead\'s contract with --replace-call-with-contract, its length loop under a loop contract; every preamble size, BodyLength and '
+         'tokeniser geometry): every sockRead request is 1..8192 bytes into a buffer with room for it (also body + checksum); the message buffer is indexed inside its bounds; the tokeniser\'s '
+         'tag and value buffers hold whatever the preamble can contain (both failed before fix 363a513: 8 KB of digits from the peer overflowed the stack -- ASan, through a real socket); a frame '
+         'is handed on only with our BeginString and 1 <= BodyLength <= max - preamble - 7, its length is exactly the number of stream bytes consumed for it and the session is then marked as '
+         'having received; every failure is a framing exception (IllegalMessage / InvalidVersion / InvalidBodyLength / PeerResetConnection) or a false return with nothing marked received. '
+         'NOT decided: byte identity of the assembled frame (string assign / append are size-only models; sockRead\'s byte identity is proved), FIXReader::execute (thread / queue hand-off), '
          'termination (the code retries for ever on EAGAIN).',
-    note='only sockRead is covered; Poco::Net::StreamSocket::receiveBytes is an ASSUMED model; errno is a plain variable',
+    note='sockRead and read are covered; Poco::Net::StreamSocket::receiveBytes, the tokeniser geometry and std::string assign/append are ASSUMED models; errno is a plain variable',
     trusted_base=COMMON_TRUST,
     explanation='The inbound stream is a ghost cursor plus one watched position; the loop invariant says the bytes received so far sit at their stream offsets, so any chunking yields the same buffer.',
 )
@@ -674,7 +679,25 @@ def _replay_k_fper(oid, inputs, trace, wd):
     return dict(steps=[dict(kind='native: real FilePersister on scratch files, scenario ' + which + ' (ASan)', rc=rc, asan_report='AddressSanitizer' in o, output=o[-1500:])], reproduced=rc != 0)
 
 
+
+def _replay_k_read(oid, inputs, trace, wd):
+    R = _rp.astdump.REPO
+    if 'C15.read' not in oid and 'fixreader_read' not in oid:
+        return None
+    exe = _rp.build_native(os.path.join(_rp.VERIF, 'replay', 'k_read.cpp'), os.path.join(wd, 'replay_k_read'),
+                           extra=['-fno-access-control', R + '/runtime/connection.cpp', '-I/repo/utests', '-L/repo/utests/.libs', '-lutest', '-L/repo/runtime/.libs', '-lfix8',
+                                  '-Wl,-rpath,/repo/utests/.libs', '-Wl,-rpath,/repo/runtime/.libs'], timeout=1200)
+    steps, rep = [], False
+    for which in (['long_tag'] if 'tag_buffer' in oid else ['long_value'] if 'value_buffer' in oid else ['valid', 'long_tag', 'long_value']):
+        rc, o = _rp.run_native(exe, [which], timeout=120)
+        asan = 'AddressSanitizer' in o
+        steps.append(dict(kind='native: real FIXReader::read fed through a loopback TCP connection in 7-byte chunks, scenario ' + which + ' (ASan)', rc=rc, asan_report=asan, output=o[-900:]))
+        rep = rep or rc != 0 or asan
+    return dict(steps=steps, reproduced=rep)
+
+
 replayers['k_tok'] = _replay_k_tok
+replayers['k_read'] = _replay_k_read
 replayers['k_fper'] = _replay_k_fper
 replayers['k_dec'] = _replay_k_dec
 replayers['k_fac'] = _replay_k_dec
